@@ -68,9 +68,41 @@ def case_ip_write(p):
                 return 204, b"", None  # a subscription request: always granted
             return reply["code"], reply["body"], "application/hap+json"
 
-        rig.acc.handler = std_handler({("PUT", "/characteristics"): put})
+        inner = std_handler({("PUT", "/characteristics"): put})
+        db = {}
+        rig.acc.handler = lambda sess, method, target, headers, body: (200, _json.dumps(db["now"], separators=(",", ":")).encode(), "application/hap+json") if target == "/accessories" and db else inner(sess, method, target, headers, body)
         rig.acc.http_style = p.get("wire")
         rig.connect()
+        readable = set(READABLE)
+        if p.get("pre") in ("written-then-db-relisted", "written-then-db-relisted-twice"):
+            # every id was written once (accepted); then the accessory's database changed - what could be read back cannot any more and the
+            # other way round - and the application listed it again.  From then on the CURRENT database says what is readable.
+            import copy
+
+            from vt.env.iprig import ACCESSORIES_JSON
+
+            reply["code"], reply["body"] = 204, b""
+            rig.run(rig.pairing.list_accessories_and_characteristics())
+            rig.run(rig.pairing.put_characteristics([(a, i, 1) for a, i in ids]))
+            for _ in range(2 if p["pre"].endswith("twice") else 1):
+                cur = copy.deepcopy(db.get("now", ACCESSORIES_JSON))
+                for acc_ in cur["accessories"]:
+                    for svc in acc_["services"]:
+                        for ch in svc["characteristics"]:
+                            k = (acc_["aid"], ch["iid"])
+                            if k in ids:
+                                if "pr" in ch["perms"]:
+                                    ch["perms"] = [x for x in ch["perms"] if x not in ("pr", "ev")]
+                                    ch.pop("value", None)
+                                    readable.discard(k)
+                                else:
+                                    ch["perms"] = ["pr"] + ch["perms"]
+                                    ch["value"] = 0
+                                    readable.add(k)
+                db["now"] = cur
+                rig.run(rig.pairing.list_accessories_and_characteristics())
+                if p["pre"].endswith("twice"):
+                    rig.run(rig.pairing.put_characteristics([(a, i, 1) for a, i in ids]))
         # the pairing's history before the writes: none, subscribed to (some of) the written characteristics, subscribed and reconnected, ...
         pre = p.get("pre")
         if pre in ("subscribed", "subscribed-reconnected", "subscribed-unsubscribed"):
@@ -146,9 +178,9 @@ def case_ip_write(p):
                     if r is not None and r.get("status") not in (0, None):
                         out.append(("ip:accepted-write-reported-non-zero", dict(det, key=k, got=r)))
                     mentioned = shape in ("207-full", "200-list")
-                    if k in READABLE and k not in notified:
+                    if k in readable and k not in notified:
                         out.append(("ip:listener-not-notified-of-accepted-write" + (":mentioned-in-207" if mentioned else ":unmentioned"), dict(det, key=k)))
-                    if k not in READABLE and k in notified:
+                    if k not in readable and k in notified:
                         out.append(("ip:listener-notified-for-unreadable-characteristic", dict(det, key=k)))
                     if k in notified and notified[k] != {"value": vals[k]}:
                         out.append(("ip:listener-notified-with-wrong-value", dict(det, key=k, got=notified[k])))
@@ -408,7 +440,7 @@ def plan(tier):
         for i in range(0, len(reps), 120):
             work.append(("ip_write", {"ids": ids, "replies": reps[i : i + 120]}))
             if i == 0 or not quick:
-                for pre in ("subscribed", "subscribed-first", "subscribed-reconnected", "subscribed-unsubscribed"):
+                for pre in ("subscribed", "subscribed-first", "subscribed-reconnected", "subscribed-unsubscribed", "written-then-db-relisted", "written-then-db-relisted-twice"):
                     work.append(("ip_write", {"ids": ids, "replies": reps[i : i + 120], "pre": pre}))
                 for wire in ("chunked", "lower", "chunked-2") if quick else ("chunked", "lower", "chunked-2", "upper", "mixed", "lws", "extra-headers", "chunked-lower"):
                     work.append(("ip_write", {"ids": ids, "replies": reps[i : i + 120], "wire": wire}))
